@@ -141,7 +141,7 @@ def evaluate(obs):
     stats['fe_' + fe] = 1
     for x in obs.xfers:
         stats['success' if x.outcome == 'success' else 'raised'] += 1
-        viol += oracles.fs_oracle(obs, x)
+        viol += oracles.fs_oracle(obs, x) + oracles.handles_oracle(obs, x)
     if dw:
         viol += dw.violations
         for (_, st) in dw.states:
